@@ -610,8 +610,14 @@ static void l_exec(const plan_t *p)
         }
         case D_SWAP: {
             int si; struct mlist t;
-            if (nd < 2) { EVT("skip", 0, 0, 0); break; }
             si = (int)(o->a[2] % (uint64_t)nd);
+            if (o->a[3] == 3 && (o->a[2] >> 8) % 4 == 0) {
+                /* swapping a list with itself changes nothing */
+                TRY(cstl_dlist_swap(D, D)); check_noabort(m, 1);
+                PROBE("self_swap"); EVT("d_swap_self", li, 0, 0);
+                break;
+            }
+            if (nd < 2) { EVT("skip", 0, 0, 0); break; }
             if (si == li) si = (li + 1) % nd;
             TRY(cstl_dlist_swap(D, &dl[si])); check_noabort(m, 1);
             if (m->n == 0 || md[si].n == 0) PROBE("d_swap_with_empty");
@@ -777,8 +783,13 @@ static void l_exec(const plan_t *p)
         }
         case S_SWAP: {
             int si; struct mlist t;
-            if (ns < 2) { EVT("skip", 0, 0, 0); break; }
             si = (int)(o->a[2] % (uint64_t)ns);
+            if (o->a[3] == 3 && (o->a[2] >> 8) % 4 == 0) {
+                TRY(cstl_slist_swap(S, S)); check_noabort(m, 0);
+                PROBE("self_swap"); EVT("s_swap_self", li, 0, 0);
+                break;
+            }
+            if (ns < 2) { EVT("skip", 0, 0, 0); break; }
             if (si == li) si = (li + 1) % ns;
             TRY(cstl_slist_swap(S, &sl[si])); check_noabort(m, 0);
             if (m->n == 0 || ms[si].n == 0) PROBE("s_swap_with_empty");
